@@ -6,10 +6,10 @@ CONSTANTS
   RawW = TRUE
   RawR = FALSE
   RawTotal = 5
-  Tmos <- T012
-  MaxT = 3
+  Tmos <- T01
+  MaxT = 2
   Spurious = TRUE
-  Interrupts = TRUE
+  Interrupts = FALSE
   Bug = "none"
 INVARIANTS ViewIsFunctionOfMoved StreamExact ReadWriteComplete RecvSendBounds NoHangPastTimeout WaitsOnlyForData
 CHECK_DEADLOCK FALSE
